@@ -555,9 +555,12 @@ def run_election(ctx):
     for law, case, detail in fails:
         ctx.violation("monitor", law, "law %s fails on the implementation: %s (%s)" % (law, case, detail),
                       {"case": case, "impl": table.get(case), "law": law, "detail": detail})
-    norm = lambda a: "|".join("PANIC" if e.startswith("PANIC") else e for e in a.split("|"))
-    mism = [(c, i, m) for c, i, m in zip(scripts, impl, model) if norm(i) != m]
-    if mism and not [f for f in fails if f[0] not in ("el-health-panic", "el-ring-diverges")]:
+    norm = lambda a: a
+    # a script on which the implementation died is reported by the monitor law el-health-panic (with the
+    # script as failing input); it is not also a correspondence mismatch without a failing input
+    died = set(f[1] for f in fails if f[0] in ("el-health-panic", "el-hang"))
+    mism = [(c, i, m) for c, i, m in zip(scripts, impl, model) if i != m and c not in died]
+    if mism:
         c, i, m = mism[0]
         k = next((j for j, (x, y) in enumerate(zip(norm(i).split("|"), m.split("|"))) if x != y), -1)
         ctx.violation("corr", "correspondence-election",
@@ -575,7 +578,7 @@ def run_election(ctx):
         "scripts_ending_with_a_self_leader": leaders, "max_term_at_end": dict(sorted(terms.items())),
         "cluster_sizes": dict(Counter(sc.split()[0] for sc in scripts)),
         "correspondence_mismatches": len(mism), "monitor_failures": len(fails),
-        "rule": "2 fixed scenarios (the findings) + seeded random scripts for 3/4/5 real Cluster values: ticks (vote_after=1), vote requests/replies delivered in any order, lost, failed, health checks delivered in any order or dropped, per-peer delivery/outcome of every leader check; generation aimed at enabled events by a python mirror of the model; no election-timer event (the real timer cannot be injected without a hook: see manifest note)",
+        "rule": "2 fixed scenarios (the fixed follower crash, the ring-divergence finding) + seeded random scripts for 3/4/5 real Cluster values: ticks (vote_after=1), vote requests/replies delivered in any order, lost, failed, health checks delivered in any order or dropped, per-peer delivery/outcome of every leader check; generation aimed at enabled events by a python mirror of the model; no election-timer event (the real timer cannot be injected without a hook: see manifest note)",
     }
     ctx.coverage["evaluations"] = ctx.coverage.get("evaluations", 0) + len(scripts)
     ctx.coverage["traces_validated_against_impl"] = ctx.coverage.get("traces_validated_against_impl", 0) + len(scripts)
